@@ -379,6 +379,11 @@ def oracle_cnt(c):
         if np.any(bad):
             i = int(np.argmax(bad))
             v.append(('rate_zero_for_nonpositive_dg', nm, '%s = %r for driving force %r <= 0' % (nm, o[nm][i], dG[i])))
+    for t_, tr_ in zip(c['times'], o['rate_t']):
+        badf = ~np.isfinite(tr_) | (tr_ < 0)
+        if np.any(badf):
+            i = int(np.argmax(badf))
+            v.append(('nucleation_rate_nonneg', 'transient', 'transient rate %r at time %r, dG=%r (site %s): must be finite and non-negative' % (tr_[i], t_, dG[i], site)))
     for tr_ in o['rate_t']:
         bad = (~pos) & (tr_ != 0)
         if np.any(bad):
@@ -810,7 +815,7 @@ def gen_cnt(rng, site, quick):
             'VmAlpha': float(rng.uniform(0.7e-5, 1.5e-5)), 'T': T, 'Rmin': Rmin, 'dG': dG, 'x': float(xa * rng.uniform(1.5, 20)),
             'D0': float(10 ** rng.uniform(-22, -12)), 'D1': float(10 ** rng.uniform(-22, -12)), 'xa': xa, 'xb': float(rng.uniform(0.2, 0.8)),
             'theta': float(rng.choice([2, 1, 4])), 'betaFunc': int(rng.choice([1, 2])),
-            'times': sorted(float(t) for t in 10 ** rng.uniform(-3, 8, 4))}
+            'times': [0.0] + sorted([float(t) for t in 10 ** rng.uniform(-3, 8, 3)] + ([1e-300, 1e300] if rng.random() < 0.3 else []))}
 
 
 def gen_sites(rng, quick, shared=None):
@@ -1052,7 +1057,11 @@ def prove_parallel(ctx, files):
         src = os.path.join(COQ, rel)
         dst = os.path.join(ctx.build, os.path.basename(rel))
         shutil.copy(src, dst)
-        ok, out = ctx.coqc(dst)
+        ok, out = ctx.coqc(dst, timeout=1500)
+        if not ok and not re.search(r'^Error|\nError', out):
+            # killed / timed out without a Coq error (overloaded machine): not a verdict about the theorems; once more
+            ctx.notes.setdefault('coq_retry', []).append({'file': rel, 'output': out[-300:]})
+            ok, out = ctx.coqc(dst, timeout=1500)
         return rel, open(src).read(), ok, out
     with concurrent.futures.ThreadPoolExecutor(max_workers=len(files)) as ex:
         res = list(ex.map(one, files))
@@ -1192,9 +1201,12 @@ def corr_cnt(ctx, quick):
                 enc('beta2 %s %s %s %s %s %s %s' % tuple(rlit(v) for v in (a, Rc, c['xa'], c['xb'], c['D0'], c['D1'], lat)), b2, 'betaBinary2', i, 0)
                 enc('incubationTime %s %s %s' % tuple(rlit(v) for v in (c['theta'], beta, Z)), tau, 'incubationTime', i, 0)
                 enc('nucleationRate_ss %s %s %s %s' % tuple(rlit(v) for v in (Z, beta, Gc, T)), rss, 'nucleationRate(steady)', i)
-                t = c['times'][i % len(c['times'])]
-                rt_ = float(o['rate_t'][i % len(c['times'])][i])
-                enc('nucleationRate %s %s %s %s %s %s' % tuple(rlit(v) for v in (Z, beta, Gc, T, tau, t)), rt_, 'nucleationRate(t)', i)
+                pt = [j for j, tj in enumerate(c['times']) if tj > 0]
+                j = pt[i % len(pt)]
+                enc('nucleationRate %s %s %s %s %s %s' % tuple(rlit(v) for v in (Z, beta, Gc, T, tau, c['times'][j])), float(o['rate_t'][j][i]), 'nucleationRate(t)', i)
+                if 0.0 in c['times'] and (Gc == 0 or tau > 0):
+                    # first evaluation of a run: time = 0 (exp(-tau/0) = 0 in binary64; masked entries stay 0)
+                    enc('nucleationRate_ext %s %s %s %s %s 0' % tuple(rlit(v) for v in (Z, beta, Gc, T, tau)), float(o['rate_t'][c['times'].index(0.0)][i]), 'nucleationRate(t=0)', i, 0)
                 enc('nucleationRadius %s %s %s' % tuple(rlit(v) for v in (T, Rc, g)), rn, 'nucleationRadius', i, 0)
     verdicts = run_enclosures(ctx, 'enc_cnt', goals)
     dis = []
